@@ -764,3 +764,80 @@ where
         marker: PhantomData,
     }
 }
+
+/// Verification hooks (cargo feature `verif_hooks`, off by default): thin wrappers giving a
+/// harness access to the private path functions of this module. They add no behaviour.
+#[cfg(feature = "verif_hooks")]
+#[doc(hidden)]
+pub mod verif {
+    use super::*;
+    use leptos_router::location::State;
+
+    /// Segments of every route for every locale, as stored by `i18n_routing`.
+    pub type Segments<L> = HashMap<L, Vec<Vec<PathSegment>>>;
+
+    /// `get_locale_from_path`
+    pub fn get_locale_from_path<L: Locale>(path: &str, base_path: &str) -> Option<L> {
+        super::get_locale_from_path::<L>(path, base_path)
+    }
+
+    /// `get_new_path` on a `Location` built from plain strings (must be called under a reactive `Owner`).
+    pub fn get_new_path<L: Locale>(
+        pathname: &str,
+        search: &str,
+        hash: &str,
+        base_path: &str,
+        new_locale: L,
+        locale: Option<L>,
+        segments: Segments<L>,
+    ) -> String {
+        let (pathname, search, hash) = (pathname.to_owned(), search.to_owned(), hash.to_owned());
+        let location = Location {
+            pathname: Memo::new(move |_| pathname.clone()),
+            search: Memo::new(move |_| search.clone()),
+            query: Memo::new(|_| Default::default()),
+            hash: Memo::new(move |_| hash.clone()),
+            state: RwSignal::new(State::default()).read_only(),
+        };
+        let segments = RouteSegments(Arc::new(Mutex::new(segments)));
+        super::get_new_path(&location, base_path, new_locale, locale, segments)
+    }
+
+    /// `localize_path` + `PathBuilder::build`
+    pub fn localize_path(
+        path: &str,
+        old_locale_segments: &[Vec<PathSegment>],
+        new_locale_segments: &[Vec<PathSegment>],
+    ) -> Option<String> {
+        let mut path_builder = PathBuilder::default();
+        super::localize_path(path, old_locale_segments, new_locale_segments, &mut path_builder)?;
+        Some(path_builder.build())
+    }
+
+    /// `match_path_segments`
+    pub fn match_path_segments(segments: &[&str], route: &[PathSegment]) -> Option<HashSet<usize>> {
+        super::match_path_segments(segments, route)
+    }
+
+    /// `i18n_routing`, also returning the per-locale segments it computed.
+    pub fn i18n_routing_with_segments<L: Locale, View, Chil>(
+        base_path: &'static str,
+        children: RouteChildren<Chil>,
+        ssr_mode: SsrMode,
+        view: View,
+    ) -> (impl MatchNestedRoutes + Clone + Send + 'static, Segments<L>)
+    where
+        View: ChooseView + Clone + Send + Sync,
+        Chil: MatchNestedRoutes + 'static + Send + Sync + Clone,
+    {
+        let children = children.into_inner();
+        let base_route = NestedRoute::new(StaticSegment(""), view)
+            .ssr_mode(ssr_mode)
+            .child(children);
+        let segments = RouteSegments::<L>::default();
+        let routes = I18nNestedRoute::new(base_path, base_route, segments.clone());
+        let inner_segments = routes.generate_routes_for_each_locale();
+        *segments.0.lock().unwrap() = inner_segments.clone();
+        (routes, inner_segments)
+    }
+}
